@@ -55,7 +55,7 @@ def main(run):
                 if cse['op'] == 'classify':
                     run.nontrivial.add(json.dumps(cse['traits'], sort_keys=True))
     # key lists: all arrangements of <= 4 (quick: <= 3) keys of the universe
-    univ = [[0, 1], [0, 2], [1, 1], [1, 2], [2, 1], [3, 1], [3, 2], [4, 1], [4, 2]]
+    univ = [[0, 1], [0, 2], [1, 1], [1, 2], [2, 1], [3, 1], [3, 2], [4, 1], [4, 2], [5, 1], [5, 2]]
     items = []
     for n in range(0, 4 if quick else 5):
         for ks in itertools.permutations(univ, n):
